@@ -57,6 +57,8 @@ def mk_dep(kind, H, rnd=None):
                                 stylesheet=[{"href": "t.css"}], meta=[{"name": "k", "content": "<&>"}], head=H.tags.style("b{}"))
     if kind == "d5":
         return H.HTMLDependency("c", "1.9", source={"subdir": "w"}, script={"src": "old.js"})
+    if kind == "d7":    # the name AND version of d1 with other files: on a tie the one met first is the one written into <head>
+        return H.HTMLDependency("a", "1.0", source={"subdir": "othersrc"}, script={"src": "other.js"})
     if kind == "hc":
         return H.head_content(H.tags.title("T"))
     if kind == "hc2":
@@ -124,11 +126,11 @@ class C11(Prop):
 
     def gens_random(self, tier, rnd):
         gens = []
-        kinds = ["html", "head", "body", "div", "span", "text", "d0", "d6", "d1", "d2", "d3", "d4", "d5", "hc", "hc2", "section",
+        kinds = ["html", "head", "body", "div", "span", "text", "d0", "d6", "d1", "d2", "d3", "d4", "d5", "d7", "d7", "hc", "hc2", "section",
                  "tfyd", "tfyt", "metacs", "void", "voidonly"]
 
         def node(depth):
-            k = rnd.choice(kinds if depth < 4 else ["text", "d1", "d3", "hc", "d4", "tfyd", "metacs", "void", "voidonly"])
+            k = rnd.choice(kinds if depth < 4 else ["text", "d1", "d7", "d3", "hc", "d4", "tfyd", "metacs", "void", "voidonly"])
             c = []
             if k in ("html", "head", "body", "div", "span", "section"):
                 c = [node(depth + 1) for _ in range(rnd.randint(0, 3))]
